@@ -117,7 +117,7 @@ def rand_value(rng, t, util):
         if t == 'duration':
             return util.Duration(rng.randrange(-50, 50), rng.randrange(-400, 400), rng.randrange(-10**15, 10**15))
     if t[0] == 'list':
-        return [rand_value(rng, t[1], util) for _ in range(rng.randint(0, 3))]
+        return [(None if rng.random() < 0.12 else rand_value(rng, t[1], util)) for _ in range(rng.randint(0, 3))]
     if t[0] == 'set':
         return set_of(rng, t[1], util)
     if t[0] == 'map':
@@ -154,6 +154,9 @@ def enc_with(T, ct, t, v, pv):
         sub = ct.subtypes[0]
         out = struct.pack('>i', len(items))
         for x in items:
+            if x is None:
+                out += struct.pack('>i', -1)      # null element
+                continue
             b = enc_with(T, sub, t[1], x, pv)
             out += struct.pack('>i', len(b)) + b
         return out
@@ -240,6 +243,24 @@ def make_cases(ctx):
             ctx.count('generator_skipped', type(e).__name__)
             continue
         cases.append({'kind': 'rows', 'body': rows_body(cols, rows).hex(), 'pv': pv, 'cols': [repr(c) for c in cols]})
+    try:
+        from cassandra.policies import ColDesc
+        from cassandra.column_encryption.policies import AES256ColumnEncryptionPolicy
+        key = bytes(rng.randrange(256) for _ in range(32))
+        for _ in range(12 if ctx.tier == 'quick' else 150):
+            et = rng.choice(['int', 'varchar', 'bigint', 'blob', 'boolean'])
+            pol = AES256ColumnEncryptionPolicy()
+            pol.add_column(ColDesc('ks', 'tbl', 'c1'), key, et)
+            cols = ['int', 'blob', 'varchar']          # declared types; c1 is the encrypted column (declared blob)
+            rows = []
+            for _r in range(rng.randint(1, 4)):
+                v = None if rng.random() < 0.35 else rand_value(rng, et, util)
+                enc = None if v is None else pol.encrypt(ColDesc('ks', 'tbl', 'c1'), encode(T, et, v, 4))
+                rows.append([encode(T, 'int', rng.randrange(100), 4), enc, (None if rng.random() < 0.3 else encode(T, 'varchar', 'x', 4))])
+            cases.append({'kind': 'ce_rows', 'body': rows_body(cols, rows).hex(), 'pv': 4, 'enc_cols': ['c1'], 'enc_type': et,
+                          'key': key.hex(), 'has_null_encrypted': any(r[1] is None for r in rows)})
+    except ImportError as e:
+        ctx.count('generator_skipped', 'column-encryption-unavailable')
     for sec in [0, 0.5, -0.5, 1.001, -1.001, 1e9 + 0.000001, -1e9 - 0.999999, 253402300799.999, -62135596800.0, 1.5e-6, -2.5e-6,
                 86399.9999995, -86400.0000005] + [rng.uniform(-6e10, 2.5e11) for _ in range(100 if ctx.tier == 'quick' else 3000)]:
         cases.append({'kind': 'ts', 'seconds': sec})
@@ -271,7 +292,7 @@ def run(ctx):
     coq_cases, coq_meta = [], []
     for c, a, b in zip(cases, pure['results'], comp['results']):
         nontriv = not (isinstance(a, list) and a and a[0] == 'exc')
-        ctx.case([c['kind'], c.get('key') or c.get('bytes') or c.get('body') or c.get('seconds')], nontrivial=nontriv,
+        ctx.case([c['kind'], c.get('key') if c['kind'] == 'murmur' else (c.get('bytes') or c.get('body') or c.get('seconds'))], nontrivial=nontriv,
                  sample={k: (v if not isinstance(v, str) or len(v) < 120 else v[:120] + '...') for k, v in c.items()})
         ctx.count('kind', c['kind'])
         if a != b:
@@ -281,8 +302,12 @@ def run(ctx):
                 key = 'cython_utils.datetime_from_timestamp.differs' + ('.negative' if c['seconds'] < 0 else '')
             elif c['kind'] == 'value':
                 key = 'compiled-cqltypes.from_binary.differs'
+            elif c['kind'] == 'ce_rows':
+                key = 'row-parser.differs.encrypted-column' + ('.null-cell' if c.get('has_null_encrypted') else '')
             else:
-                key = 'row-parser.differs' + ('.timestamp-column' if 'timestamp' in ''.join(c.get('cols', [])) else '')
+                cs = ''.join(c.get('cols', []))
+                key = 'row-parser.differs' + ('.timestamp-column' if 'timestamp' in cs else '') + \
+                      ('.null-collection-element' if ('list' in cs or 'map' in cs) and b == ['exc', 'DriverException'] else '')
             ctx.violation(key, '%s: pure build gives %s, compiled build gives %s (%s)' % (c['kind'], json.dumps(a)[:200], json.dumps(b)[:200],
                                                                                        (c.get('t') or c.get('cols') or c.get('seconds') or c.get('key', ''))),
                           case=c, expected=a, actual=b, theorem='C07 (observed equality of the two builds)')
